@@ -46,7 +46,8 @@ fn payload_to_string(e: &Box<dyn std::any::Any + Send>) -> String {
 }
 
 fn run_with<S: Scheduler + 'static>(p: &Arc<Program>, sched: S) {
-    let rec = Recorder::new(sched);
+    let mut rec = Recorder::new(sched);
+    rec.stop_at = p.stop_at;
     let runner = Runner::new(rec, config_for(p));
     let p2 = p.clone();
     let r = catch_unwind(AssertUnwindSafe(move || runner.run(move || interp::main_body(p2.clone()))));
@@ -94,7 +95,13 @@ fn main() {
     // keep panics quiet: every panic is caught and reported as an `E` line
     // (every panic that STARTS is announced with a `P panic` line: a panic that is later swallowed, or whose
     // unwinding never completes, is then visible in the log; the comparison with the model ignores `P` lines)
-    std::panic::set_hook(Box::new(|_| record::log("P panic".to_string())));
+    let verbose = std::env::var("VH_BACKTRACE").is_ok();
+    std::panic::set_hook(Box::new(move |info| {
+        if verbose {
+            eprintln!("vh: {info}\n{}", std::backtrace::Backtrace::force_capture());
+        }
+        record::log("P panic".to_string())
+    }));
     std::env::remove_var("SHUTTLE_RANDOM_SEED");
     let args: Vec<String> = std::env::args().collect();
     let cmd = args.get(1).map(|s| s.as_str()).unwrap_or("");
